@@ -172,4 +172,41 @@ theorem stale_new_blocks_forever (B : Path) (s : St) (ws : List Files) (w : File
 example : look (runWith origSteps [.str "b"] (init []) [.crash [(.str "a", [1])] 4]).fs
     (targetNew [.str "b"]) ≠ none := by decide
 
+/-! ### a crash INSIDE a call (WriteFile / RemoveAll are not single system calls) -/
+
+/-- If the process dies inside `WriteFile` or `RemoveAll`, the file system differs from one of the
+crash states above only inside a version directory the target does not point to (`ResidueOnly`).
+Any such residue is harmless: for every continuation by a fresh `Dir` the target is still absent
+or exactly one `Write`'s file set, and every `Write` of the continuation succeeds. -/
+theorem residue_of_interrupted_call_harmless (B : Path) (fs0 : FS) (h0 : Clean B fs0)
+    (evs : List Ev) (fs' : FS)
+    (hres : ResidueOnly B (run B (init fs0) evs).clock (run B (init fs0) evs).fs fs')
+    (cont : List Ev) :
+    (resolve (run B { run B (init fs0) evs with fs := fs', prev := none } cont).fs (target B) = none ∨
+     ∃ n files, files ∈ (evs ++ cont).map Ev.files ∧
+      resolve (run B { run B (init fs0) evs with fs := fs', prev := none } cont).fs (target B)
+        = some (verDir B n, .dir) ∧
+      DirIs (run B { run B (init fs0) evs with fs := fs', prev := none } cont).fs (verDir B n) (asMap files)) ∧
+    ∀ files, (step B (run B { run B (init fs0) evs with fs := fs', prev := none } cont) (.write files)).lastErr = none := by
+  have hinv := inv_of_residue B _ _ fs' (inv_history B fs0 h0 evs) hres
+  have hrun := (inv_run B cont _ _ hinv).1
+  refine ⟨?_, ?_⟩
+  · rcases hrun.1.tgt with h | ⟨n, files, _, hmem, hl, hd⟩
+    · exact Or.inl (resolve_none _ _ h)
+    · refine Or.inr ⟨n, files, ?_, resolve_link_dir _ _ _ hl hd.1, hd⟩
+      simp only [List.mem_append, List.mem_reverse, List.map_append] at hmem ⊢
+      exact hmem.symm
+  · intro files
+    obtain ⟨fs'', hstep, _⟩ := write_result B _ _ files hrun
+    rw [hstep]
+
+example : ResidueOnly [.str "b"] 1
+    (run [.str "b"] (init []) [.crash [(.str "a", [1, 2, 3])] 3]).fs
+    (set (run [.str "b"] (init []) [.crash [(.str "a", [1, 2, 3])] 3]).fs
+      [.str "b", .ver 0, .str "a"] (some (.file [1]))) := by
+  intro q
+  by_cases hq : q = [.str "b", .ver 0, .str "a"]
+  · right; exact ⟨0, [.str "a"], by simp [hq], by decide, by decide⟩
+  · left; rw [look_set _ _ _ _ (by simp)]; simp [hq]
+
 end Kit.Dir
